@@ -31,7 +31,7 @@ FLAG_NAMES = {
     18: "t_meshset_need", 19: "t_meshset_sub", 20: "t_updmesh_need", 21: "t_bcinit", 22: "t_dirichlet", 23: "t_lagrange",
     24: "t_newton_need", 25: "t_pf_need_d", 26: "t_pf_need_u", 27: "t_pf_setiter_d", 28: "t_pf_setiter_u",
     29: "t_pf_dmg_inval_u", 30: "t_pf_el_inval_d", 31: "t_csr_key_groups", 32: "t_csr_key_ndof", 33: "t_mass_key_group",
-    34: "t_model_cache_refresh", 35: "t_meshset_initsols", 36: "t_param_set_unconditional"}
+    34: "t_model_cache_refresh", 35: "t_meshset_initsols", 36: "t_param_set_unconditional", 37: "t_meshset_keeps_old"}
 
 KEYS = {
     1: "no-need-update:_Parameter.__set__", 2: "no-notify:_IModel.Need_Update", 3: "no-need-update:_Simu._Update(model)",
@@ -47,7 +47,8 @@ KEYS = {
     27: "pf-flag:Set_Iter(damage)", 28: "pf-flag:Set_Iter(displacement)", 29: "pf-flag:damage-solve-keeps-Ku",
     30: "pf-flag:elastic-solve-keeps-Kd", 31: "cache-key:csr-map-without-groups", 32: "cache-key:csr-map-without-Ndof",
     33: "cache-key:mass-without-group", 34: "model-derived-cache-read-before-lazy-update",
-    35: "solution-state-kept:simu.mesh-setter", 36: "no-need-update:same-array-reassigned:_Parameter.__set__"}
+    35: "solution-state-kept:simu.mesh-setter", 36: "no-need-update:same-array-reassigned:_Parameter.__set__",
+    37: "unsubscribed-from-history-mesh:simu.mesh-setter"}
 
 # ---- real-code replays of the model witnesses (same sequences as `witness` in C14_Cache.v) ------------
 NS = {"op": "newsim", "m": 0}
@@ -111,9 +112,13 @@ REAL_WITNESS[35] += [
     {"type": "PhaseField", "key": "history-kept:PhaseField:simu.mesh-setter", "opts": {"split": "Amor"},
      "ops": [NS, DIR2, {"op": "dirichlet", "i": 0, "where": "right", "values": [0.01, 0.0]}, SOLVE, {"op": "saveiter", "i": 0}, SOLVE, {"op": "saveiter", "i": 0},
              SAME_NN, {"op": "setmesh", "i": 0, "m": 1}, DIR2, PULL, SOLVE]}]
+REAL_WITNESS[37] = [{"type": "Elastic", "ops": [NS, DIR2, LOAD, SOLVE, {"op": "saveiter", "i": 0}, NEWMESH, {"op": "setmesh", "i": 0, "m": 1}, DIR2, LOAD, SOLVE,
+                                                  {"op": "saveiter", "i": 0}, {"op": "setiter", "i": 0, "j": 0}, {"op": "bcinit", "i": 0}, GK, mv("Rotate", 0)]}]
 REAL_WITNESS[36] = [{"type": "Elastic", "ops": [NS, {"op": "param_arr", "name": "E", "base": 1.0e5, "amp": 0.3, "freq": 1.0}, GK,
                                                   {"op": "param_arr", "name": "E", "base": 2.0e5, "amp": 0.2, "freq": 2.0, "same": True}]}]
-REAL_WITNESS[34] = [{"type": "InElastic", "key": "model-derived-cache:Behavior.__eigen-built-once",
+REAL_WITNESS[34] = [{"type": "HyperElastic", "key": "simu-cache-key-incomplete:HyperElastic(thickness)",
+                     "ops": HYP_PRE + [SOLVE, {"op": "param", "name": "thickness", "value": 1.75}]},
+                    {"type": "InElastic", "key": "model-derived-cache:Behavior.__eigen-built-once",
                      "ops": IE_PRE + [{"op": "param", "sub": True, "name": "v", "value": 0.1}]}] + [{"type": "PhaseField", "opts": {"split": sp},
                      "ops": PF_PRE + [SOLVE, {"op": "param", "sub": True, "name": "v", "value": 0.1}]} for sp in ("He", "Zhang", "Stress", "AnisotStress")]
 for _a, _b in ((2, 1), (3, 1), (6, 1), (14, 10), (15, 11), (16, 12), (17, 13), (26, 25), (28, 27)):
@@ -344,20 +349,23 @@ def gen_case(rng, typ, maxlen):
             elif typ == "Elastic":
                 if arrays:
                     has_arr[0] = False
-                nm = rng.choice(["E", "v"])
-                ops.append({"op": "param", "name": nm, "value": pv(1e3, 3e5) if nm == "E" else pv(0.1, 0.4)})
+                nm = rng.choice(["E", "v", "thickness"])
+                ops.append({"op": "param", "name": nm, "value": pv(1e3, 3e5) if nm == "E" else pv(0.1, 0.4) if nm == "v" else pv(0.5, 2.5)})
             elif typ == "Thermal":
-                ops.append({"op": "param", "name": rng.choice(["k", "c"]), "value": pv(0.5, 9.0)})
+                ops.append({"op": "param", "name": rng.choice(["k", "c", "thickness"]), "value": pv(0.5, 9.0)})
             elif typ == "PhaseField":
                 if rng.random() < 0.65:
                     # v changes the SHAPE of C (E only scales it: scale-invariant derived quantities cannot see E)
-                    nm = rng.choice(["E", "v", "v"])
-                    ops.append({"op": "param", "sub": True, "name": nm, "value": pv(1e3, 3e5) if nm == "E" else pv(0.1, 0.4)})
+                    nm = rng.choice(["E", "v", "v", "thickness"])
+                    ops.append({"op": "param", "sub": True, "name": nm, "value": pv(1e3, 3e5) if nm == "E" else pv(0.1, 0.4) if nm == "v" else pv(0.5, 2.5)})
                 else:
                     nm = rng.choice(["Gc", "l0"])
                     ops.append({"op": "param", "sub": False, "name": nm, "value": pv(0.5, 5.0) if nm == "Gc" else pv(0.2, 0.9)})
             elif typ == "HyperElastic":
-                ops.append({"op": "param", "name": "K", "value": pv(1e4, 9e4)})
+                if rng.random() < 0.5:
+                    ops.append({"op": "param", "name": "K", "value": pv(1e4, 9e4)})
+                else:
+                    ops.append({"op": "param", "name": "thickness", "value": pv(0.5, 2.5)})
             else:
                 ops.append({"op": "param", "sub": True, "name": "E", "value": pv(1e10, 3e11)})
         elif c == "move":
@@ -451,9 +459,9 @@ def systematic_cases():
     [constructor; boundary conditions; Solve (non-zero state); <parameter> = new value] then compare with fresh.
     Catches quantities cached on the observed models that are stale for one evaluation only."""
     out = []
-    newval = {"E": 81234.5, "v": 0.12, "Gc": 4.4, "l0": 0.31, "k": 7.7, "c": 0.9, "K": 2.3e4}
+    newval = {"E": 81234.5, "v": 0.12, "Gc": 4.4, "l0": 0.31, "k": 7.7, "c": 0.9, "K": 2.3e4, "thickness": 1.75}
     for sp in SPLITS:
-        for sub, names in ((True, ["E", "v"]), (False, ["Gc", "l0"])):
+        for sub, names in ((True, ["E", "v"] + (["thickness"] if sp == "Amor" else [])), (False, ["Gc", "l0"])):
             for nm in names:
                 out.append({"type": "PhaseField", "opts": {"split": sp},
                             "ops": PF_PRE + [SOLVE, {"op": "param", "sub": sub, "name": nm, "value": newval[nm]}]})
@@ -467,14 +475,18 @@ def systematic_cases():
                 {"op": "param_arr", "name": "E", "base": 2.0e5, "amp": 0.2, "freq": 2.0, "same": False}]})
     for nm in (SAME_NN, NEWMESH):
         out.append({"type": "InElastic", "opts": {}, "ops": IE_PRE + [nm, {"op": "setmesh", "i": 0, "m": 1}] + IE_RELOAD})
-    for typ, names, pre in (("Elastic", ["E", "v"], [NS, DIR2, LOAD, SOLVE]),
-                            ("Thermal", ["k", "c"], [NS, {"op": "dirichlet", "i": 0, "where": "left", "values": [1.0]},
+    EL_DYN = [NS, DIR2, LOAD, {"op": "rho", "i": 0, "value": 7.5}, {"op": "algo", "i": 0, "kind": "hyperbolic", "dt": 0.05}, SOLVE]
+    for typ, names, pre in (("Elastic", ["E", "v", "thickness"], EL_DYN), ("Elastic", ["E", "v", "thickness"], [NS, DIR2, LOAD, SOLVE]),
+                            ("HyperElastic", ["K", "thickness"], HYP_PRE + [SOLVE]),
+                            ("Thermal", ["k", "c", "thickness"], [NS, {"op": "dirichlet", "i": 0, "where": "left", "values": [1.0]},
                                                      {"op": "algo", "i": 0, "kind": "parabolic", "dt": 0.1}, SOLVE]),
                             ("HyperElastic", ["K"], [NS, DIR2, LOAD, SOLVE]),
                             ("Beam", ["E"], BEAM_PRE + [SOLVE])):
         for nm in names:
             v = newval[nm] if typ != "Beam" else 1.1e11
             out.append({"type": typ, "opts": {}, "ops": pre + [{"op": "param", "sub": typ == "Beam", "name": nm, "value": v}]})
+    for typ, pre in (("Elastic", EL_DYN), ("HyperElastic", HYP_PRE + [SOLVE]), ("Thermal", TH_PRE + [SOLVE])):
+        out.append({"type": typ, "opts": {}, "ops": pre + [{"op": "rho", "i": 0, "value": 41.5}]})
     # two invalidating ops IN A ROW (no assembly in between), both orders, every pair of mutator kinds
     def muts(typ):
         m = {"param": {"op": "param", "sub": typ in ("Beam", "PhaseField"), "name": {"Thermal": "k", "HyperElastic": "K"}.get(typ, "E"),
@@ -763,6 +775,45 @@ def run(ctx):
         if key in seen:
             continue
         seen.add(key)
+        # search: turn the broken flag prediction into a concrete failing op sequence -- the op whose flag differs
+        # is made the LAST op, preceded by an assembly (so that something is cached) on every simulation
+        nsim = sum(1 for o in c["ops"][:k] if o["op"] == "newsim")
+        warm_g = [{"op": "getk", "i": i} for i in range(nsim)] + ([{"op": "getk", "i": i, "dmg": True} for i in range(nsim)] if c["type"] == "PhaseField" else [])
+        dofv_ = {"Thermal": [1.0], "WeakForms": [1.0], "Beam": [0.0, 0.0, 0.0]}.get(c["type"], [0.0, 0.0])
+        warm_s = [x for i in range(nsim) for x in ({"op": "dirichlet", "i": i, "where": "clamp" if c["type"] == "Beam" else "left", "values": dofv_}, {"op": "solve", "i": i})]
+        cands = [{"type": c["type"], "opts": c.get("opts", {}), "ops": c["ops"][:k] + w + [c["ops"][k]]} for w in ([], warm_g, warm_s)]
+        # ... and, when the op touches an object the simulation is not using right now (a mesh of its history), re-visit
+        # every earlier configuration first: save before each mesh replacement, restore each saved iteration, assemble,
+        # then repeat the op
+        if c["type"] not in ("PhaseField",):
+            hist_ops, nsave = [], {}
+            for o in c["ops"][:k + 1]:
+                if o["op"] == "setmesh":
+                    hist_ops.append({"op": "saveiter", "i": o["i"]})
+                    nsave[o["i"]] = nsave.get(o["i"], 0) + 1
+                elif o["op"] == "saveiter":
+                    nsave[o["i"]] = nsave.get(o["i"], 0) + 1
+                hist_ops.append(o)
+            for i, n_ in nsave.items():
+                for j in range(n_):
+                    tail_ = [{"op": "setiter", "i": i, "j": j}, {"op": "bcinit", "i": i}] + ([] if KIND[c["type"]] == "KNonLin" else [{"op": "getk", "i": i}]) + [c["ops"][k]]
+                    cands.append({"type": c["type"], "opts": c.get("opts", {}), "ops": hist_ops + tail_})
+        hit = None
+        try:
+            for cand, rr in zip(cands, run_impl(ctx, cands)):
+                if is_bad(rr):
+                    hit = (cand, rr)
+                    break
+        except RuntimeError:
+            pass
+        if hit is not None:
+            small = shrink(ctx, hit[0], is_bad)
+            opk = c["ops"][k]
+            skey = "stale-after:%s:%s" % (c["type"], opk["op"] + (":" + opk["kind"] if "kind" in opk else ""))
+            ctx.violation(skey, "the update flags of the %s simulation after `%s` differ from the model's prediction (%s vs %s) and the simulation then differs from a freshly built one after %s" % (
+                c["type"], opk["op"], fl, [list(x) for x in pf], [o["op"] for o in small["ops"]]),
+                {"replay_py": replay_snippet(small), "ops": small["ops"], "opts": small.get("opts", {})}, found_input=True)
+            continue
         exp = None
         try:
             exp = [[list(y) for y in x[0]] for x in model_traces(ctx, [pre], "C14_flagcase")[0]]
